@@ -381,7 +381,7 @@ def r01_2(ctx) -> None:
     seen: Dict = {}
     for short in PASS_THROUGH + TRANSFORMING + ["builtins.iter", "heapq._KeyIter.from_iters",
                                                "itertools.Tee.__init__", "itertools.chain.__init__"]:
-        u = ctx.unit(short)
+        u = ctx.inlined(ctx.unit(short))  # an error may be raised from a private helper of the tool
         for r in own_nodes(u.node):
             if isinstance(r, ast.Raise):
                 if r.exc is None:
